@@ -116,7 +116,11 @@ func c20Scenarios(r *hx.Run) []hx.Scenario {
 		d = 1
 	}
 	add := func(name string, body func()) {
-		out = append(out, hx.Scenario{Name: "c20:" + name, Body: withRaces(body), Bounds: simrt.Bounds{Preempt: d, Fault: 0, Total: d}, Cfg: cfg})
+		dd := d
+		if strings.HasPrefix(name, "api:") || strings.HasPrefix(name, "avahi:") {
+			dd = 1 // the concurrent-API scenarios get delay bound 1 in both tiers
+		}
+		out = append(out, hx.Scenario{Name: "c20:" + name, Body: withRaces(body), Bounds: simrt.Bounds{Preempt: dd, Fault: 0, Total: dd}, Cfg: cfg})
 	}
 	for _, v := range []string{"during-handshake", "close-storm", "unregister-shutdown", "pending", "mdns-churn"} {
 		add("api:"+v, apiStormBody(v))
